@@ -246,6 +246,46 @@ impl Cutter<'_> {
     }
 }
 
+/// Include one file a second time: the directive of a file that defines no label (so that the
+/// second copy is legal) and includes nothing itself is written twice. The two copies stand in
+/// different contexts and can get different diagnostics, at positions that interleave.
+pub fn include_twice(world: &mut World, r: &mut Rng) -> bool {
+    let mut sites: Vec<(String, usize)> = Vec::new();
+    for (p, t) in &world.files {
+        let lines = split_lines(t);
+        let continues = statement_continues(&lines);
+        for (i, l) in lines.iter().enumerate() {
+            let Some(rel) = parse_include(l) else { continue };
+            let Some(target) = resolve(dir_of(p), rel) else { continue };
+            let Some(tt) = world.files.get(&target) else { continue };
+            let label_free = !split_lines(tt).iter().any(|x| x.split('#').next().unwrap_or("").contains(':') || parse_include(x).is_some());
+            if label_free && !continues.get(i + 1).copied().unwrap_or(false) {
+                sites.push((p.clone(), i));
+            }
+        }
+    }
+    if sites.is_empty() {
+        return false;
+    }
+    let (p, i) = r.pick(&sites).clone();
+    let t = world.files[&p].clone();
+    let mut ls: Vec<String> = split_lines(&t).iter().map(|s| (*s).to_string()).collect();
+    let dup = ls[i].clone();
+    // not directly behind the first copy: a few lines further down where possible
+    let continues = statement_continues(&ls);
+    let mut at = (i + 1 + r.usize(4)).min(ls.len());
+    while at < ls.len() && continues[at] {
+        at += 1;
+    }
+    ls.insert(at, dup);
+    let mut nt = ls.join("\n");
+    if t.ends_with('\n') {
+        nt.push('\n');
+    }
+    world.files.insert(p, nt);
+    true
+}
+
 /// For each line: does it continue the statement of the line above (a data list that goes on, the
 /// body and end of a macro definition)? A directive cannot be put in front of such a line.
 pub fn statement_continues<S: AsRef<str>>(lines: &[S]) -> Vec<bool> {
